@@ -103,14 +103,21 @@ PROPS = {
                         "RecursionGuard (IndexSet + ahash: not executable under Kani without stubbing getrandom)", "diagnostics sorted by position (std sort_by_key)"],
     },
     "C23": {
-        "level": "model_checking",
+        "level": "proof",
+        "verus": ["coordinate"],
         "kani": ["apollo-compiler/coordinate.rs"],
-        "technique": "bounded Kani/CBMC harnesses: every string of a fixed length over a byte-class alphabet, against a scanner transcription of the five coordinate forms",
-        "explanation": "BOUNDED stand-in (not a proof): for every string of length <= 3 (per kind; up to 7 in thorough) over the 11-byte class alphabet {a Z 7 _ . ( ) : @ - SP}, "
-                       "each of the six from_str functions returns Ok iff the string has the corresponding form Name | Name.Name | Name.Name(Name:) | @Name | @Name(Name:), "
-                       "and the parsed component names are exactly the corresponding substrings (so printing gives back the input: Display is a format string of those pieces).",
-        "not_decided": ["strings longer than the bound (the accepting paths of Name.Name(Name:) need length >= 7 and are reached only in the thorough tier, where CBMC may time out)",
-                        "bytes outside the class alphabet (covered for names by C10's unbounded Name proof)", "Display impls", "lookup in a schema (IndexMap)"],
+        "frame": ["coordinate_display_formats"],
+        "witness": {"files": ["apollo-compiler/coordinate.rs"], "tag": "C23"},
+        "technique": "Verus contracts on the five extracted from_str bodies against existential grammar forms over Seq<char> (unbounded); bounded Kani harnesses tie the shims to the real code",
+        "explanation": "Verus proves for every string of any length that TypeCoordinate / TypeAttributeCoordinate / FieldArgumentCoordinate / DirectiveCoordinate / "
+                       "DirectiveArgumentCoordinate::from_str return Ok iff the string has the form Name | Name.Name | Name.Name(Name:) | @Name | @Name(Name:), and that the parsed "
+                       "component names are exactly the substrings (input == ty + '.' + field + '(' + argument + ':)' etc.), so printing with the Display format strings "
+                       "(checked syntactically) gives back the input. Bounded stand-ins (Kani, short strings over a class alphabet, not counted as proved): the same iff on the real "
+                       "code including the real Name::try_from, and SchemaCoordinate::from_str's dispatch.",
+        "assumptions": ["str::split_once(char) / strip_prefix(char) behave as documented (external_body free functions after a listed method->function rewrite)",
+                        "&str values with equal characters are equal (axiom_str_ext; what a string-literal pattern compares)",
+                        "Name::try_from(&str) is Ok iff the Name grammar holds and keeps the text (proved for Name::new in unit `name`; TryFrom<&str> forwards to it)"],
+        "not_decided": ["SchemaCoordinate::from_str dispatch beyond the bounded harnesses (closures: .map(..).or_else(..))", "Display impls beyond the syntactic check of their format strings", "lookup in a schema (IndexMap)"],
     },
     "C01": {
         "level": "proof",
